@@ -9,7 +9,7 @@
 (* so that every event is judged); the driver requires that the number of  *)
 (* distinct states equals 1 + K + N, i.e. that every event was evaluated.  *)
 (***************************************************************************)
-EXTENDS EditCheck, SerdeModel, DepthDef, Containers, WalkDef, BuildDef, EncodeImpl, Json, IOUtils
+EXTENDS EditCheck, SerdeModel, DepthDef, Containers, WalkDef, BuildDef, EncodeImpl, ArrayImpl, Json, IOUtils
 
 Ev == ndJsonDeserialize(IOEnv.TRACE)
 N == Len(Ev)
@@ -606,6 +606,36 @@ EditSteps(i, steps, j, prev, loose0) ==
                           /\ EditSteps(i, steps, j + 1, st.text, loose)
 CheckEdit(i) == EditSteps(i, Ev[i].steps, 1, Ev[i].start, FALSE)
 
+\* ---- model drift: the implementation-shaped array editor (ArrayImpl) against the text of the edited array ----
+\* mem = the model state of the arrays edited earlier in this history (the trailing-comma flag of an array that
+\* was emptied is not visible in the text; everything else is re-read from the text before the step)
+RECURSIVE ArrSteps(_, _, _, _, _)
+ArrSteps(i, steps, j, prev, mem) ==
+  IF j > Len(steps) THEN TRUE
+  ELSE LET st == steps[j]
+           o == FixEditOp(st)
+           at == Append(o.path, o.key)
+           \* any other operation that names the array, its parents or its elements makes the remembered state stale
+           keep == {p \in DOMAIN mem : ~IsPrefixPath(p, o.path) /\ ~IsPrefixPath(o.path, p) /\ ~IsPrefixPath(at, p)}
+           mem1 == [p \in keep |-> mem[p]]
+       IN IF st.res # "ok" THEN TRUE
+          ELSE IF o.op \notin {"array_push", "array_insert", "array_replace", "array_remove", "array_fmt"} THEN ArrSteps(i, steps, j + 1, st.text, mem1)
+          ELSE LET pp == ParseDocument(prev)
+                   pn == ParseDocument(st.text)
+               IN IF pp.res # "ok" \/ pn.res # "ok" THEN TRUE
+                  ELSE LET b == GetAt(pp.tree, at)
+                           a == GetAt(pn.tree, at)
+                       IN IF b.k # "a" \/ a.k # "a" \/ b.sp = NoSpan \/ a.sp = NoSpan THEN ArrSteps(i, steps, j + 1, st.text, mem1)
+                          ELSE LET m0 == IF at \in DOMAIN mem THEN mem[at] ELSE FromText(prev, b)
+                                   mo == [op |-> o.op, i |-> o.i, txt |-> <<57>>]
+                                   real == SubSeq(st.text, a.sp[1], a.sp[2] - 1)
+                               IN IF ~ArrEnabled(m0, mo) THEN ArrSteps(i, steps, j + 1, st.text, mem1)
+                                  ELSE LET m1 == ArrApply(m0, mo)
+                                           memN == [p \in (DOMAIN mem) \cup {at} |-> IF p = at THEN m1 ELSE mem[p]]
+                                       IN IF DropCr(ArrPrint(m1)) = DropCr(real) THEN ArrSteps(i, steps, j + 1, st.text, memN)
+                                          ELSE Report(i, "drift-array", [step |-> j, op |-> o.op, model |-> ArrPrint(m1), impl |-> real]) /\ FALSE
+CheckArrayDrift(i) == ArrSteps(i, Ev[i].steps, 1, Ev[i].start, <<>>)
+
 RECURSIVE FoldPSV(_, _, _)
 FoldPSV(ps, h, i) == IF i > Len(h) \/ ~ps.ok THEN ps ELSE FoldPSV(ApplyPS(ps, h[i]), h, i + 1)
 
@@ -693,7 +723,7 @@ CheckEvent(i) ==
     [] Ev[i].ev = "visit" -> CheckVisit(i)
     [] Ev[i].ev = "build" -> CheckBuild(i)
     [] Ev[i].ev = "macro" -> CheckMacro(i)
-    [] Ev[i].ev = "edit" -> AllTrue({CheckEdit(i), CheckEncodeDrift(i)})
+    [] Ev[i].ev = "edit" -> AllTrue({CheckEdit(i), CheckEncodeDrift(i), CheckArrayDrift(i)})
     [] Ev[i].ev = "flags" -> CheckFlags(i)
     [] Ev[i].ev = "digest" -> CheckDigest(i)
     [] Ev[i].ev = "cfgbuild" -> CheckCfgBuild(i)
